@@ -332,3 +332,99 @@ def _name(s):
     return {"N": "node rows (N)", "E": "global edge rows (E)", "S": "ranks within a synapse type (S)",
             "M": "padded solver slots (M)", "B": "branch indices (B)", "P": "branch-point indices (P)",
             "C": "cell indices (C)"}.get(s, s)
+
+
+# --------------------------------------------------------------------------------------
+# normal form of a term modulo helper extraction and placement of conditionals
+
+
+def subst(t: T, m: dict) -> T:
+    if t.op == "param" and t.name in m:
+        return m[t.name]
+    if not t.args and not t.kw:
+        return t
+    return T(t.op, t.name, [subst(a, m) for a in t.args], {k: subst(v, m) for k, v in t.kw.items()}, t.node)
+
+
+def _pure_helper(ex: Expander) -> Optional[T]:
+    """The return term of a helper that only computes a value (one return, no store into anything)."""
+    if len(ex.returns) != 1 or ex.stores:
+        return None
+    return ex.returns[0]
+
+
+def _bind(fnode, args, kw, skip_self=False):
+    a = fnode.args
+    names = [x.arg for x in a.posonlyargs + a.args]
+    if skip_self and names and names[0] in ("self", "cls"):
+        names = names[1:]
+    if a.vararg or a.kwarg or len(args) > len(names):
+        return None
+    m = dict(zip(names, args))
+    for k, v in kw.items():
+        if k in m or k not in names + [x.arg for x in a.kwonlyargs]:
+            return None
+        m[k] = v
+    defaults = dict(zip([x.arg for x in a.posonlyargs + a.args][-len(a.defaults):] if a.defaults else [], a.defaults))
+    defaults.update({k.arg: d for k, d in zip(a.kwonlyargs, a.kw_defaults) if d is not None})
+    for n in names + [x.arg for x in a.kwonlyargs]:
+        if n not in m:
+            d = defaults.get(n)
+            if isinstance(d, ast.Constant):
+                m[n] = T("const", d.value)
+            else:
+                return None
+    return m
+
+
+def inline(repo, fi: FuncInfo, t: T, depth: int = 3, keep=()) -> T:
+    """Replace calls of value-only helpers (nested functions of `fi`, module-level functions, methods of fi's class
+    called on self) by their return term with the arguments substituted.  `keep`: callee names never inlined (the
+    names a rule looks for).  Extracting a sub-expression into such a helper, or inlining one, leaves the result
+    unchanged."""
+    if depth <= 0:
+        return t
+    args = [inline(repo, fi, a, depth, keep) for a in t.args]
+    kw = {k: inline(repo, fi, v, depth, keep) for k, v in t.kw.items()}
+    t2 = T(t.op, t.name, args, kw, t.node) if (t.args or t.kw) else t
+    callee_ex, call_args, skip_self, recv = None, None, False, None
+    if t2.op == "call" and t2.name not in keep:
+        top = fi
+        while top.parent is not None:
+            top = top.parent
+        stack = [expander(repo, top)]
+        while stack:
+            e = stack.pop()
+            if t2.name in e.nested:
+                callee_ex = e.nested[t2.name]
+                break
+            stack.extend(e.nested.values())
+        if callee_ex is None:
+            r = repo.resolve_name(repo.mods[fi.file], t2.name)
+            if isinstance(r, FuncInfo):
+                callee_ex = expander(repo, r)
+        call_args = list(t2.args)
+    elif t2.op == "mcall" and t2.name not in keep and t2.args and t2.args[0].op == "param" and t2.args[0].name == "self" and fi.cls:
+        for c in repo.mro(fi.cls):
+            if t2.name in c.methods:
+                callee_ex = expander(repo, c.methods[t2.name])
+                call_args = list(t2.args[1:])
+                skip_self = True
+                recv = t2.args[0]
+                break
+    if callee_ex is None:
+        return t2
+    ret = _pure_helper(callee_ex)
+    if ret is None:
+        return t2
+    m = _bind(callee_ex.fi.node, call_args, t2.kw, skip_self)
+    if m is None:
+        return t2
+    if skip_self:
+        m["self"] = recv
+    return inline(repo, callee_ex.fi, subst(ret, m), depth - 1, keep)
+
+
+def norm(repo, fi: FuncInfo, t: T, keep=()) -> T:
+    from sa.terms import canon
+    return canon(inline(repo, fi, t, keep=keep))
